@@ -34,7 +34,7 @@ func RaceRun(args []string) int {
 	drv := core.NewDriver("race")
 	defer drv.Close()
 	n := 0
-	for _, sc := range allScenarios(true) {
+	for _, sc := range append(allScenarios(true), raceOnlyScenarios()...) {
 		if !strings.HasPrefix(sc.Name, filter) {
 			continue
 		}
@@ -67,6 +67,15 @@ func RaceRun(args []string) int {
 	for i := 0; i < reps*5; i++ {
 		reg := registry.New()
 		var wg sync.WaitGroup
+		finished := make(chan struct{})
+		go func() {
+			select {
+			case <-finished:
+			case <-time.After(60 * time.Second):
+				fmt.Fprintf(os.Stderr, "RACERUN-HANG scenario=registry-program\n")
+				os.Exit(0)
+			}
+		}()
 		for g := 0; g < 4; g++ {
 			wg.Add(1)
 			go func(g int) {
@@ -81,10 +90,30 @@ func RaceRun(args []string) int {
 			}(g)
 		}
 		wg.Wait()
+		close(finished)
 		n++
 	}
 	fmt.Fprintf(os.Stderr, "RACERUN-DONE executions=%d\n", n)
 	return 0
+}
+
+// raceOnlyScenarios run free under the race detector only (too large to explore):
+// reports with many rows, where code may take a parallel path.
+func raceOnlyScenarios() []scenario {
+	var b strings.Builder
+	b.WriteString("2019-12-31 open Equity:Opening\n")
+	for i := 0; i < 700; i++ {
+		fmt.Fprintf(&b, "2019-12-31 open Assets:Bank:Acc%03d\n", i)
+	}
+	for i := 0; i < 700; i++ {
+		fmt.Fprintf(&b, "2020-01-%02d \"t\"\nEquity:Opening Assets:Bank:Acc%03d %d.%02d CHF\n\n", 1+i%28, i, 1+(i*7919)%100000, i%100)
+	}
+	files := map[string]string{"j.knut": b.String()}
+	return []scenario{
+		{Name: "big-table-balance", Files: files, Args: []string{"balance", "--color=false", "--digits", "2", "j.knut"}},
+		{Name: "big-table-balance-days", Files: files, Args: []string{"balance", "--color=false", "--diff", "--days", "-k", "j.knut"}},
+		{Name: "big-table-weights", Files: files, Args: []string{"portfolio", "weights", "-v", "CHF", "--color=false", "j.knut"}},
+	}
 }
 
 var reFrame = regexp.MustCompile(`(?m)^  (github\.com/sboehler/knut/[^\s(]+)`)
